@@ -247,6 +247,9 @@ def judge(rep, prop, results, verdicts, labels):
             for name in x["names"]:
                 if name in INV_OF[prop]:
                     rep.violation(f"{prop}/trace/{name}", f"{lab}: {name} violated at event {x['at']} of a recorded execution", payload)
+        errs = (r.get("callback_errors") or []) + [str(x) for x in (r.get("thread_errors") or [])]
+        if errs and prop == "C06":
+            rep.violation(f"C06/exception/{errs[0][:50]}", f"{lab}: exception inside a scheduler callback / helper thread: {errs[0][:200]}", payload)
         o = oracle(prop, r)
         if o:
             rep.violation(f"{prop}/oracle/{o[1].split(':')[0][:60]}", f"{lab}: {o[1]} (event {o[0]})", payload)
